@@ -1,3 +1,4 @@
+import Driver.D03
 import Driver.D10
 import Driver.D23
 import Driver.D25
@@ -18,6 +19,7 @@ def dispatch (line : String) : String :=
     else if stream ∈ ["pack", "alloc"] then c31 stream fs
     else if stream ∈ ["maxdepth"] then c25 stream fs
     else if stream ∈ ["lit", "i32", "f64fix", "typrint"] then c10 stream fs
+    else if stream ∈ ["lex", "lexlim"] then c03 stream fs
     else "unknown-stream"
 
 partial def loop (h : IO.FS.Stream) (out : IO.FS.Stream) : IO Unit := do
